@@ -296,7 +296,7 @@ func RunC08(ep *core.Episode) {
 	// 6, 7: the same, and the statement-level yields the driver inserts into fs.go are honoured in this episode
 	gk := tp.Choose("genidx", 8)
 	genIdx := gk%2 == 1
-	astOn := gk >= 6
+	astOn := gk >= 6 && os.Getenv("VSIM_AST_OFF") == ""
 	fs := &app.FS{Root: root, AcceptByteRange: accept, IndexNames: []string{"index.html"}, GenerateIndexPages: genIdx, Compress: compress, CacheDuration: cacheDur,
 		PathRewrite: app.NewPathSlashesStripper(1)}
 	h := fs.NewRequestHandler()
@@ -319,7 +319,8 @@ func RunC08(ep *core.Episode) {
 		// (goroutines left over from earlier episodes - cache cleaners - are not tasks and run on)
 		ep.Probe("inserted-yields")
 		verifhook.OnYield = func(site string, obj interface{}) {
-			if strings.HasPrefix(site, "ast") && S.Known() {
+			// a goroutine that is no task yet (the cache cleaner) becomes one when it has to wait for a lock a parked task holds
+			if strings.HasPrefix(site, "ast") && (S.Known() || site == "ast-lock") {
 				ep.ProbeN("inserted-yield-taken", 1)
 				S.Yield(site)
 			}
